@@ -373,6 +373,7 @@ var kindTable = map[string]kindInfo{
 	"clear": {"ok", "U"}, "send": {"ok", "U"}, "ecall": {"ok", "U"},
 	"xfer": {"ok", "other"}, "energy": {"ok", "other"}, "sd": {"ok", "other"}, "sdself": {"ok", "other"}, "create": {"ok", "nil"},
 	"sdben": {"ok", "other"}, "nest3sd": {"ok", "U"}, "diesd": {"errkeep", "other"},
+	"nestcreate": {"ok", "U"}, "nestcreate2": {"ok", "U"},
 	"revert": {"errkeep", "U"}, "nestdie": {"errkeep", "U"}, "xferfail": {"errkeep", "other"}, "createfail": {"errkeep", "nil"},
 	"invalid": {"errall", "U"}, "oog": {"errall", "U"},
 }
@@ -511,6 +512,18 @@ func (w *world) compile(kind string, i int) compiled {
 				k1 := thor.BytesToBytes32(new(big.Int).Add(bw, big.NewInt(1)).Bytes())
 				d.get(addrU1).Storage[skey(k0)] = rawStorage(v)
 				d.get(addrU1).Storage[skey(k1)] = rawStorage(v)
+				return 0, 0
+			}}
+	case "nestcreate", "nestcreate2":
+		// U1 -> U2 (100000 gas): U2 stores, then CREATEs / CREATE2s a child whose constructor writes storage and logs but
+		// returns more code than the remaining gas can pay for (code-store out of gas); U2 ignores the failure and STOPs.
+		// A failed creation frame is a failed frame like any other: no trace of the child may remain.
+		op := map[string]int{"nestcreate": sim.OpCreate, "nestcreate2": sim.OpCreate2}[kind]
+		return compiled{tx.NewClause(&addrU1).WithData(sim.UCall(sim.OpNest3, word(k), word(v), sim.AddrWord(addrU2), word(int64(op)), word(0), word(0))),
+			func(d dump, _ thor.Bytes32, _ int) (int, int) {
+				setU(d, addrU1, k, v)
+				setU(d, addrU1, k+1, v)
+				setU(d, addrU2, k, v)
 				return 0, 0
 			}}
 	case "diesd": // U2 stores, calls U3 (self-destruct to the beneficiary), then REVERTs: the clause fails after the destruct
